@@ -38,6 +38,9 @@ func commands(m *mode) []consoleui.Command {
 		},
 		Action: func(_ *consoleui.UI, args ...interface{}) error {
 			from, to := args[0].(int), args[1].(int)
+			if l := m.view.Lines.Len(); from >= l || to >= l {
+				return fmt.Errorf("line number too big: %d or %d >= %d", from, to, l)
+			}
 			m.view.Lines.UnmarkAll()
 
 			err := m.view.Lines.Move(from, to)
@@ -59,6 +62,9 @@ func commands(m *mode) []consoleui.Command {
 		},
 		Action: func(_ *consoleui.UI, args ...interface{}) error {
 			l := args[0].(int)
+			if n := m.view.Lines.Len(); l >= n {
+				return fmt.Errorf("line number too big: %d >= %d", l, n)
+			}
 			m.view.Lines.UnmarkAll()
 
 			block, ok := m.view.Lines.Block(l)
